@@ -156,6 +156,7 @@ CONTRACTS.append(Contract(
 from contracts import c10_options  # noqa: E402
 
 CONTRACTS += c10_options.CONTRACTS
+FINITE = c10_options.FINITE
 from contracts import c04_policy as _pol  # noqa: E402
 
 # computing the per-category defaults must not write into the stored options (they are what to_dict() / to_string() export)
